@@ -94,7 +94,8 @@ def run_unit(u, tier):
         NL = ('--smt-option', 'smt.arith.solver=6', '--smt-option', 'smt.arith.nl=true')     # what Verus itself uses for by(nonlinear_arith)
         RING1 = 'broadcast use {s_mul_comm, s_add_comm};'
         RING2 = 'broadcast use {s_mul_comm, s_add_comm, s_sub_def, s_neg_neg, s_neg_add, s_mul_neg, s_mul_assoc, s_mul_add};'
-        rungs = [((), RING2), (NL, None)]
+        RINGS = 'broadcast use {s_mul_comm, s_add_comm, s_sub_def, s_neg_neg, s_neg_add, s_mul_neg};'
+        rungs = [((), RINGS), ((), RING2), (NL, None)]
         for opts, ring in rungs:
             if ring:
                 open(fpath, 'w').write(focus_text(text, u.table, keep).replace(RING1, ring))
@@ -274,7 +275,13 @@ def finish(prop, tier, seed, result, evid_path):
             tags = set((found or {}).get('tags', []))
             full = found and not found.get('clauses_skipped') and found.get('agree_points', 0) >= 100
             poly = full and found.get('branch_free') and found.get('unguarded')
-            if found and found.get('input') is None and found.get('agree_points') and ((tags & {'identity', 'reference-formula'}) or poly):
+            # triage (DESIGN 0.7): a failed proof is downgraded to UNDECIDED only when (a) every ensures clause was evaluated on
+            # the real code, (b) the function is branch-free (no if / match / && / || / ? / loops after inlining) and its clauses
+            # are unguarded, so that the real function is one polynomial / rational / elementary expression of its inputs and
+            # agreement on >= 100 random points is a Schwartz-Zippel argument for identity.  Functions with branches are
+            # never downgraded: a defect confined to a thin set (a threshold, a degenerate case) is exactly what random
+            # points miss.
+            if found and found.get('input') is None and poly:
                 # Schwartz-Zippel style triage (DESIGN 2.5): the real function still equals the spec function on every sampled
                 # point, so the failed proof of this hinted / reference-formula obligation is brittleness, not a violation
                 result['infra'].append('proof of %s failed but the real code agrees with its spec function on %d random points: undecided (proof brittleness), not a violation' % (
